@@ -171,16 +171,64 @@ structure WrapCfg where
   /-- `VisibilityRequirement`: occluders = sampled objects other than source/target with `occluding`,
       materialised (a tuple, not a one-shot iterator) -/
   reqOccludersFiltered : Bool
+  /-- `Point.visibleRegion = SpheroidRegion(position=self.position, dimensions=(k·D, k·D, k·D))` with
+      `D = self.visibleDistance`: the factor `k` (`SpheroidRegion` takes full extents, so the documented
+      radius `D` needs `k = 2`) -/
+  pointRegionDiamFactor : Nat
+  /-- `ViewRegion.__init__`: the base sphere is `SpheroidRegion(dimensions=(k·D, k·D, k·D))` -/
+  viewRegionDiamFactor : Nat
+  /-- every form of `ViewRegion` is the base sphere or `base_sphere.intersect(<section>)`, placed at the
+      `position` / `rotation` it is given -/
+  viewRegionWithinSphere : Bool
 deriving DecidableEq, Repr
 
 def WrapCfg.reference : WrapCfg :=
   { objCamOffsetLocal := true, objRegionSameCam := true, orientedPassOrientation := true,
     orientedCamIsPosition := true, pointFullSphere := true, passVisibleDistance := true,
-    opOccludersFiltered := true, reqOccludersFiltered := true }
+    opOccludersFiltered := true, reqOccludersFiltered := true, pointRegionDiamFactor := 2,
+    viewRegionDiamFactor := 2, viewRegionWithinSphere := true }
+
+/-- choices made by the 2D compatibility mode (`Point2D.canSee`, `_canSee2D`, the `visibleRegion`s of
+    `Point2D` / `OrientedPoint2D` / `Object2D`, `SectorRegion.containsPoint`, `CircularRegion.containsPoint`,
+    `geometry.pointIsInCone` / `viewAngleToPoint`, `Vector.rotatedBy` / `offsetRotated`) -/
+structure Cfg2D where
+  /-- `Point2D.canSee`: `if not occludingObjects: return self._canSee2D(other)`; with occluders the 3D
+      class's `canSee` is used -/
+  fastPathWithoutOccluders : Bool
+  /-- `_canSee2D` for a `Vector` / `Point2D`: `self.visibleRegion.containsPoint(toVector(other))` -/
+  pointViaRegion : Bool
+  /-- `Point2D.visibleRegion = CircularRegion(self.position, self.visibleDistance)` -/
+  discArgs : Bool
+  /-- `OrientedPoint2D.visibleRegion = SectorRegion(self.position, self.visibleDistance, self.heading,
+      self.viewAngle)` -/
+  sectorArgs : Bool
+  /-- `Object2D.visibleRegion`: the same sector based at
+      `self.position.offsetRotated(self.heading, self.cameraOffset)` -/
+  objCamOffsetRotated : Bool
+  /-- `rotatedBy(θ)` is the counter-clockwise rotation `(c·x − s·y, s·x + c·y, z)` and
+      `offsetRotated(θ, off) = self + off.rotatedBy(θ)` -/
+  rotatedByCCW : Bool
+  /-- `containsPoint`: `if point.z != self.z: return False` (sector and disc) -/
+  planarOnly : Bool
+  /-- `containsPoint`: `point.distanceTo(self.center) <= self.radius` (sector and disc) -/
+  distWithin : Bool
+  /-- `viewAngleToPoint`: `normalizeAngle(atan2(p[coneNum] − b[coneNum], p[coneDen] − b[coneDen])
+      − heading + coneQuarter·π/2)` (the code subtracts `heading + π/2`) -/
+  coneNum : Nat
+  coneDen : Nat
+  coneQuarter : Int
+  /-- `pointIsInCone`: `abs(va) <= angle / 2` -/
+  coneHalfAngle : Bool
+deriving DecidableEq, Repr
+
+def Cfg2D.reference : Cfg2D :=
+  { fastPathWithoutOccluders := true, pointViaRegion := true, discArgs := true, sectorArgs := true,
+    objCamOffsetRotated := true, rotatedByCCW := true, planarOnly := true, distWithin := true,
+    coneNum := 1, coneDen := 0, coneQuarter := -1, coneHalfAngle := true }
 
 /-! ## the viewer -/
 
-/-- `(cos, sin)` of half a view angle -/
+/-- `(cos, sin)` of half a view angle (also used for `(cos, sin)` of a heading) -/
 structure Half where
   c : Rat
   s : Rat
@@ -456,5 +504,70 @@ def insideCert (vw : Viewer) (b : Box) (u : V3) : Bool :=
   (let c := vw.a1.c
    let s := vw.a1.s
    decide (0 ≤ b.minLin vw ⟨s * u.x, s * u.y, -c⟩) && decide (0 ≤ b.minLin vw ⟨s * u.x, s * u.y, c⟩))
+
+/-! ## visible regions (`visibleRegion` of the three kinds of viewer) -/
+
+/-- the closed ball with centre `c` and *diameter* `diam` (what `SpheroidRegion(dimensions=(diam,)*3)` placed at `c`
+    is), without square roots or division -/
+def BallContains (c : V3) (diam : Rat) (t : V3) : Prop := 0 ≤ diam ∧ 4 * (t.sub c).normSq ≤ diam * diam
+instance (c : V3) (diam : Rat) (t : V3) : Decidable (BallContains c diam t) := by
+  unfold BallContains; exact inferInstance
+
+/-- `Point.visibleRegion.containsPoint(t)` -/
+def pointRegion (w : WrapCfg) (pos : V3) (D : Rat) (t : V3) : Prop :=
+  BallContains pos ((w.pointRegionDiamFactor : Rat) * D) t
+instance (w : WrapCfg) (pos : V3) (D : Rat) (t : V3) : Decidable (pointRegion w pos D t) := by
+  unfold pointRegion; exact inferInstance
+
+/-- the outer bound of `ViewRegion` (the visible region of `OrientedPoint` / `Object`): its base sphere, placed at
+    the camera; `False`-valued flag = not known to be inside any sphere -/
+def viewRegionBound (w : WrapCfg) (cam : V3) (D : Rat) (t : V3) : Prop :=
+  w.viewRegionWithinSphere = true ∧ BallContains cam ((w.viewRegionDiamFactor : Rat) * D) t
+instance (w : WrapCfg) (cam : V3) (D : Rat) (t : V3) : Decidable (viewRegionBound w cam D t) := by
+  unfold viewRegionBound; exact inferInstance
+
+/-! ## 2D compatibility mode: the fast path of `Point2D.canSee` for point targets -/
+
+/-- rotation about the vertical axis by the heading whose cosine and sine are `c`, `s`
+    (`Vector.rotatedBy`: counter-clockwise, `(c·x − s·y, s·x + c·y, z)`) -/
+def Mat3.yaw (c s : Rat) : Mat3 := ⟨⟨c, -s, 0⟩, ⟨s, c, 0⟩, ⟨0, 0, 1⟩⟩
+
+/-- the configuration of the angular test of `pointIsInCone`, in the vocabulary of the 3D windows -/
+def Cfg2D.azCfg (c2 : Cfg2D) : Cfg :=
+  { Cfg.reference with azNum := c2.coneNum, azDen := c2.coneDen, azQuarter := c2.coneQuarter }
+
+/-- centre of the sector / disc that is the `visibleRegion` of a 2D viewer -/
+def cam2D (c2 : Cfg2D) (k : ViewerKind) (pos off : V3) (hd : Half) : V3 :=
+  match k with
+  | .object =>
+    if c2.objCamOffsetRotated then
+      pos.add (if c2.rotatedByCCW then (Mat3.yaw hd.c hd.s).apply off else (Mat3.yaw hd.c hd.s).applyT off)
+    else pos
+  | _ => pos
+
+/-- `CircularRegion.containsPoint` / the distance and planarity part of `SectorRegion.containsPoint` -/
+def Disc2D (c2 : Cfg2D) (ctr : V3) (D : Rat) (t : V3) : Prop :=
+  (c2.planarOnly = true → t.z = ctr.z) ∧
+    (if c2.distWithin then 0 ≤ D ∧ (t.sub ctr).normSq ≤ D * D else D < 0 ∨ D * D ≤ (t.sub ctr).normSq)
+instance (c2 : Cfg2D) (ctr : V3) (D : Rat) (t : V3) : Decidable (Disc2D c2 ctr D t) := by
+  unfold Disc2D; exact inferInstance
+
+/-- `SectorRegion.containsPoint`: in the disc and `|viewAngleToPoint| ≤ angle/2`.  The angle
+    `atan2(dy, dx) − heading` is the `atan2` of the difference vector rotated back by the heading. -/
+def Sector2D (c2 : Cfg2D) (ctr : V3) (hd : Half) (D : Rat) (a : Half) (t : V3) : Prop :=
+  Disc2D c2 ctr D t ∧
+    (c2.coneHalfAngle = true → AzOK c2.azCfg a ((Mat3.yaw hd.c hd.s).applyT (t.sub ctr)))
+instance (c2 : Cfg2D) (ctr : V3) (hd : Half) (D : Rat) (a : Half) (t : V3) :
+    Decidable (Sector2D c2 ctr hd D a t) := by
+  unfold Sector2D; exact inferInstance
+
+/-- `Point2D / OrientedPoint2D / Object2D.canSee(<vector or Point2D>)` with no occluders (the 2D fast path) -/
+def canSee2D (c2 : Cfg2D) (k : ViewerKind) (pos off : V3) (hd : Half) (D : Rat) (a : Half) (t : V3) : Prop :=
+  match k with
+  | .point => Disc2D c2 pos D t
+  | _ => Sector2D c2 (cam2D c2 k pos off hd) hd D a t
+instance (c2 : Cfg2D) (k : ViewerKind) (pos off : V3) (hd : Half) (D : Rat) (a : Half) (t : V3) :
+    Decidable (canSee2D c2 k pos off hd D a t) := by
+  unfold canSee2D; cases k <;> exact inferInstance
 
 end Scenic.Vis
